@@ -132,26 +132,35 @@ def generate(repo: str) -> tuple[str, str]:
         if f"keys_completed.add({k})" not in [ast.unparse(s) for s in g.body]:
             raise TranslateError(f"GatherStep.run: {what} branch does not record the key in keys_completed")
 
+    # locals of the element branch may be renamed: `key` is whatever is assigned the sliced tag, `size_value` whatever is
+    # assigned the conditional expression reading size_map
+    assigns = {ast.unparse(s.targets[0]): s.value for s in disp.orelse if isinstance(s, ast.Assign) and len(s.targets) == 1
+               and isinstance(s.targets[0], ast.Name)}
+    kv = [n for n, v in assigns.items() if isinstance(v, ast.Call) and _nospace(v.func) == "'.'.join"]
+    if len(kv) != 1:
+        raise TranslateError("GatherStep.run: `key = '.'.join(token.tag.split('.')[: -self.depth])` not found in the element branch")
+    kv = kv[0]
+    sv = [n for n, v in assigns.items() if isinstance(v, ast.IfExp)]
+    if len(sv) != 1:
+        raise TranslateError("GatherStep.run: `size_value = self.size_map[key].value if key in self.size_map else None` not found")
+    sv = sv[0]
     completes(g_size, "token.tag", "size")
-    completes(g_elem, "key", "element")
+    completes(g_elem, kv, "element")
     size_stmts = [ast.unparse(s).replace(" ", "") for s in disp.body]
     if "self.size_map[token.tag]=token" not in size_stmts:
         raise TranslateError("GatherStep.run: size branch does not store `self.size_map[token.tag] = token`")
     size_emits = ExprTranslator({"len(self.token_map.setdefault(token.tag, []))": "count", "token.value": "size"}).tr(g_size.test)
     # element branch
-    assigns = {ast.unparse(s.targets[0]): s.value for s in disp.orelse if isinstance(s, ast.Assign) and len(s.targets) == 1}
-    if "key" not in assigns or "size_value" not in assigns:
-        raise TranslateError("GatherStep.run: `key = …` / `size_value = …` assignments not found in the element branch")
-    drop = key_slice(assigns["key"], "GatherStep.run")
-    if _nospace(assigns["size_value"]) != "self.size_map[key].valueifkeyinself.size_mapelseNone":
+    drop = key_slice(assigns[kv], "GatherStep.run")
+    if _nospace(assigns[sv]) != f"self.size_map[{kv}].valueif{kv}inself.size_mapelseNone":
         raise TranslateError("GatherStep.run: size_value is not `self.size_map[key].value if key in self.size_map else None`")
     elem_stmts = [ast.unparse(s).replace(" ", "") for s in disp.orelse]
-    if "self.token_map.setdefault(key,[]).append(token)" not in elem_stmts:
+    if f"self.token_map.setdefault({kv},[]).append(token)" not in elem_stmts:
         raise TranslateError("GatherStep.run: element branch does not append the token to token_map[key]")
-    if elem_stmts.index("self.token_map.setdefault(key,[]).append(token)") > disp.orelse.index(g_elem):
+    if elem_stmts.index(f"self.token_map.setdefault({kv},[]).append(token)") > disp.orelse.index(g_elem):
         raise TranslateError("GatherStep.run: the element is stored after the emission test")
     elem_some, elem_none = _none_compare(
-        g_elem.test, ExprTranslator({"len(self.token_map.setdefault(key, []))": "count", "size_value": "size"}), "GatherStep.run")
+        g_elem.test, ExprTranslator({f"len(self.token_map.setdefault({kv}, []))": "count", sv: "size"}), "GatherStep.run")
     # forced gathering
     forced = [s for s in run.body if isinstance(s, ast.If) and any(
         isinstance(n, ast.Call) and ast.unparse(n.func) == "self._gather" for n in ast.walk(s))]
